@@ -842,8 +842,10 @@ class C05(Prop):
                 "PTR/MX/SOA data label by label, type/class/TTL as read, data length recomputed, opaque data byte for byte, in order; no "
                 "Panic outcome (C05_uncompress_is_plain_encoding); that output is accepted by the parser again, reads as the same question and "
                 "records (equal plain records of the two unique readings) and is a fixed point of decompression (C05_roundtrip, "
-                "C05_reading_unique; also C05_header_kept, C05_name_copy_appends). PARTIAL: the translation of record boundaries other than "
-                "offset 12 is decided each run by exact comparison with the independent canonical encoder at every boundary of every packet.")
+                "C05_reading_unique; also C05_header_kept, C05_name_copy_appends); the offset of the question, of every record and of the end of "
+                "the packet is translated to where it sits in the output (C05_boundary_translation). The statement is covered by theorems; "
+                "the run-time part is the correspondence of model and code, with exact comparison against the independent canonical "
+                "encoder at every boundary of every packet.")
     assumptions = ["bytes < 256", "the reference offset is a record boundary (documented precondition of uncompress_with_previous_offset)"]
 
     def gen(self, rng, tier):
